@@ -1164,9 +1164,15 @@ func (m *ExpirationManager) RevokeByToken(ctx context.Context, te *logical.Token
 		return fmt.Errorf("failed to scan for leases: %w", err)
 	}
 
-	// Revoke all the keys by marking them expired
+	// Revoke all the keys by marking them expired. A lease lives in the
+	// namespace of the request that produced it (its ID carries that
+	// namespace), which need not be the token's.
 	for _, leaseID := range existing {
-		err := m.lazyRevokeInternal(ctx, leaseID)
+		leaseNS, err := m.getNamespaceFromLeaseID(ctx, leaseID)
+		if err != nil {
+			return err
+		}
+		err = m.lazyRevokeInternal(namespace.ContextWithNamespace(ctx, leaseNS), leaseID)
 		if err != nil {
 			return err
 		}
